@@ -18,7 +18,8 @@ ANCHORS = [("factor.py", "ConjugateFactor._multiply_with_measure"),
            ("factor.py", "ConstantFactor._hadamard_with_measure"),
            ("measure.py", "GaussianMeasure.__mul__"), ("measure.py", "GaussianMeasure.multiply"),
            ("measure.py", "GaussianMeasure.hadamard"), ("measure.py", "GaussianMeasure.product"),
-           ("factor.py", "ConjugateFactor.product"), ("factor.py", "ConjugateFactor.evaluate_ln")]
+           ("factor.py", "ConjugateFactor.product"), ("factor.py", "ConjugateFactor.evaluate_ln"),
+           ("measure.py", "GaussianDiagMeasure.product")]
 RULE = ("cell = (measure kind, factor kind, op in {multiply, *, hadamard, product}, update_full, "
         "cache state, R1, R2, D); full cross product over the catalogue, values seeded per cell; "
         "non-trivial: R1*R2 > 1 or D > 1; each evaluation compares evaluate_ln of the result at 6 "
@@ -137,6 +138,33 @@ def run_cell(cell, rec, seed):
                             if got is not None:
                                 rec.close("hadamard", got, refh, ns=nsh, detail=info,
                                           mech=f"hadamard-value:{fk}")
+                    # ---- product() of the measure operand itself (own override for diagonal
+                    # measures; with a filled cache the result is prepared for integration)
+                    if fk == "general" and not uf:
+                        pu = _call(rec, "measure.product", lambda: u.product(), info)
+                        if pu is not None:
+                            rec.cell(["measure.product"] + base, nontriv)
+                            gp = _call(rec, "evaluate_ln", lambda: pu.evaluate_ln(xj), info)
+                            if gp is not None:
+                                rec.close("measure.product", gp, lu.sum(0, keepdims=True),
+                                          ns=au.sum(0, keepdims=True), detail=info,
+                                          mech=f"measure-product-value:{mk}")
+                        # element-wise evaluation: component r at point r
+                        xe = gen.points(rng, R1, tu.mu, tu.Sigma, far=False)
+                        ge = _call(rec, "evaluate_ln[element_wise]",
+                                   lambda: u.evaluate_ln(J(xe), element_wise=True), info)
+                        if ge is not None:
+                            le = np.diag(orc.factor_ln(tu.Lambda, tu.nu, tu.ln_beta, xe))
+                            rec.close("element-wise evaluation", ge, le, ns=np.diag(
+                                orc.factor_ln_abs(tu.Lambda, tu.nu, tu.ln_beta, xe)), detail=info,
+                                mech="element-wise-value")
+                            ge2 = _call(rec, "__call__[element_wise]",
+                                        lambda: u(J(xe), element_wise=True), info)
+                            if ge2 is not None:
+                                rec.close("element-wise call", ge2, np.exp(le),
+                                          ns=np.exp(le) * np.diag(orc.factor_ln_abs(
+                                              tu.Lambda, tu.nu, tu.ln_beta, xe)) + 1e-280,
+                                          detail=info, mech="element-wise-value")
                     # ---- operands unchanged (bit-identical defining parameters)
                     rec.true("operands-unchanged", _same(su, _snap(u)) and _same(sf, _snap(f)),
                              mech=f"operand-changed:{fk}", detail=info)
